@@ -6,6 +6,7 @@ import Vanguard.Model.Router
 import Driver.E2E
 import Vanguard.Model.Pool
 import Driver.Config
+import Driver.Rest
 /-!
   Line protocol: one operation per line, `op arg …` (byte strings in hex, `-` = empty,
   numbers in decimal); one canonical result per line.  The Go harness prints the
@@ -123,6 +124,9 @@ def dispatch : List String → String
       | _ => none
     if evs.any Option.isNone then "bad-op"
     else if checkTrace (evs.filterMap id) then "exclusive" else "shared"
+  | ["rest_rt", h] => runRestRT h
+  | ["rest_in", h] => runRestIn h
+  | ["rest_http", h] => runRestIn h
   | ["schema_tables", h] => runConfig h
   | ["schema_grpc", _] => "~same"
   | ["schema_req", _] => "~one outcome for every loading route"
